@@ -121,6 +121,12 @@ def _locate_params(rng, nd, transpose=False):
         kw["maxsize_q"] = 0.8
     if not transpose and rng.random() < 0.15:
         kw["topn"] = rng.randint(1, 3)
+    if transpose and rng.random() < 0.3:
+        # topn together with an effective mass / size filter: which rows survive must not depend on
+        # the raster order (a tie of the masses at the cut is skipped as borderline by the runner)
+        kw["topn"] = rng.randint(1, 4)
+        if kw["minmass_q"] is None and rng.random() < 0.7:
+            kw["minmass_q"] = rng.choice([0.3, 0.6])
     return kw
 
 
@@ -572,8 +578,18 @@ def run_transpose(ctx, inp):
               "transpose_view" if inp.get("view") else "transpose_copy"):
         res.stat(k)
     sig = dict(stream="transpose", ndim=nd)
-    st0, ref = run_locate(img, locate_kwargs(kw))
+    st0, ref = run_locate(img, locate_kwargs({k: v for k, v in kw.items() if k != "topn"}))
     kwargs = locate_kwargs(kw, ref if st0 == "ok" else None)
+    if "topn" in kwargs:
+        res.stat("transpose_topn_cases")
+        stU, U = run_locate(img, {k: v for k, v in kwargs.items() if k != "topn"})
+        if stU == "ok" and len(U) > kwargs["topn"]:
+            res.stat("transpose_topn_cuts")
+            ms = np.sort(U["mass"].values.astype(float))[::-1]
+            if ms[kwargs["topn"] - 1] == ms[kwargs["topn"]]:
+                res.borderline = True          # equal masses at the cut: the choice is order dependent
+                res.stat("transpose_topn_cut_tied")
+                return res
     kwargsT = dict(kwargs)
     for k in ("diameter", "separation", "smoothing_size"):
         if k in kwargs:
